@@ -129,8 +129,130 @@ def c02_traj(m, o):
     return {"checks": checks, "violations": viol}
 
 
+def _contains(strata, filt):
+    return all(strata.get(k) == v for k, v in filt.items())
+
+
+def c13(m, o):
+    """query functions vs brute-force 'name equal and strata contain the filter', in model order"""
+    viol, checks = [], 0
+    for q in o["queries"]:
+        filt = dict(q.get("filt") or {})
+        if q["kind"] == "comps":
+            name = q.get("name")
+            exp = [str(c) for c in m.compartments if (name is None or c.name == name) and _contains(c.strata, filt)]
+            try:
+                got = [str(c) for c in m.query_compartments(({"name": name} if name else {}) | filt)]
+            except KeyError:
+                got = "KeyError"
+                exp = exp if any(c.name == name for c in m.compartments) else "KeyError"
+            checks += 1
+            if got != exp:
+                viol.append("query_compartments(name=%r, %r) = %s, expected %s" % (name, filt, got, exp))
+        else:
+            name, sf, df = q.get("name"), dict(q.get("sf") or {}), dict(q.get("df") or {})
+            exp = [i for i, f in enumerate(m.flows)
+                   if (name is None or f.name == name)
+                   and (not f.source or _contains(f.source.strata, sf))
+                   and (not f.dest or _contains(f.dest.strata, df))]
+            try:
+                got_f = m.query_flows(name, source=sf or None, dest=df or None)
+                got = [i for i, f in enumerate(m.flows) if any(f is g for g in got_f)]
+            except Exception as e:  # noqa
+                got = "raised %r" % (e,)
+            checks += 1
+            if got != exp:
+                viol.append("query_flows(%r, source=%r, dest=%r) selects flows %s, expected %s" % (name, sf, df, got, exp))
+            # BaseFlow.is_match must agree as well
+            got2 = [i for i, f in enumerate(m.flows) if name is not None and f.is_match(name, sf, df)]
+            if name is not None:
+                checks += 1
+                if got2 != exp:
+                    viol.append("is_match(%r, %r, %r) selects flows %s, expected %s" % (name, sf, df, got2, exp))
+    return {"checks": checks, "violations": viol}
+
+
+def c12(m, o):
+    """alignment of outputs with times and compartments; endpoint indices; label distinctness"""
+    from fractions import Fraction
+    p = {k: float(Fraction(v)) for k, v in (o.get("params") or {}).items()}
+    viol, checks = [], 0
+    names = [str(c) for c in m.compartments]
+    checks += 1
+    if len(set(names)) != len(names):
+        dup = sorted({n for n in names if names.count(n) > 1})
+        viol.append("serialised-name-collision: compartment names are not distinct: %s" % dup)
+        return {"checks": checks, "violations": viol}
+    t0, t1, h = (float(Fraction(x)) for x in o["times"])
+    n = int(round((t1 - t0) / h)) + 1
+    checks += 1
+    if len(m.times) != n or any(abs(m.times[i] - (t0 + i * h)) > 1e-9 * (1 + abs(t1)) for i in range(min(n, len(m.times)))):
+        viol.append("times %s are not start + i*timestep for %d points" % (list(m.times)[:6], n))
+    m.run(p, solver="euler", jit=False, rebuild=True)
+    out = np.asarray(m.outputs)
+    checks += 1
+    if out.shape != (len(m.times), len(names)):
+        viol.append("outputs shape %s, expected (%d, %d)" % (out.shape, len(m.times), len(names)))
+    pos = {nm: i for i, nm in enumerate(names)}
+    for i, f in enumerate(m.flows):
+        for end in (f.source, f.dest):
+            if end:
+                checks += 1
+                if str(end) not in pos:
+                    viol.append("flow %d (%s): endpoint %s is not a compartment of the model" % (i, f.name, end))
+                elif end.idx != pos[str(end)]:
+                    viol.append("flow %d (%s): endpoint %s claims index %s, is at %d" % (i, f.name, end, end.idx, pos[str(end)]))
+    df = m.get_outputs_df()
+    checks += 2
+    if list(df.columns) != names:
+        viol.append("outputs data frame columns %s differ from compartments" % list(df.columns)[:5])
+    if len(df.index) != len(m.times) or any(abs(a - b) > 1e-12 for a, b in zip(df.index, m.times)):
+        viol.append("outputs data frame index differs from model.times")
+    ip = m.get_initial_population(p)
+    checks += 2
+    if list(ip.index) != names:
+        viol.append("initial population labels differ from compartments")
+    if np.abs(np.asarray(ip.values, dtype=float) - out[0]).max() > 1e-9 * (1 + np.abs(out[0]).max()):
+        viol.append("row 0 of outputs differs from the initial population")
+    return {"checks": checks, "violations": viol}
+
+
+def c12_dates(m, o):
+    """reference dates: labels = ref_date + t days; datetime start/end convert back to the same numbers"""
+    from datetime import datetime, timedelta
+    import random
+    from summer2 import CompartmentalModel
+    from summer2.utils import Epoch
+    rng = random.Random(o.get("seed", 0))
+    viol, checks = [], 0
+    for _ in range(o.get("n", 20)):
+        ref = datetime(rng.randint(1990, 2030), rng.randint(1, 12), rng.randint(1, 28), rng.randint(0, 23), rng.choice([0, 30]))
+        start = rng.randint(-400, 4000) / rng.choice([1, 2, 4])
+        nst = rng.randint(1, 12)
+        h = rng.choice([1.0, 0.5, 2.0, 0.25])
+        end = start + nst * h
+        ep = Epoch(ref)
+        d0, d1 = ep.number_to_datetime(start), ep.number_to_datetime(end)
+        mm = CompartmentalModel([d0, d1], ["A", "B"], ["B"], timestep=h, ref_date=ref)
+        checks += 1
+        if len(mm.times) != nst + 1 or abs(mm.times[0] - start) > 1e-9 or abs(mm.times[-1] - end) > 1e-9:
+            viol.append("datetime times %s..%s convert to %s..%s, expected %s..%s" % (d0, d1, mm.times[0], mm.times[-1], start, end))
+        mm.set_initial_population({"A": 10.0, "B": 5.0})
+        mm.run(solver="euler", jit=False)
+        idx = mm.get_outputs_df().index
+        checks += 1
+        exp = [ref + timedelta(days=float(t)) for t in mm.times]
+        if any(abs((a.to_pydatetime() - b).total_seconds()) > 1e-3 for a, b in zip(idx, exp)) or len(idx) != len(exp):
+            viol.append("data frame dates %s differ from ref_date + t days" % list(idx)[:3])
+        checks += 1
+        back = ep.datetime_to_number(ep.number_to_datetime(start))
+        if abs(back - start) > 1e-9:
+            viol.append("Epoch round trip %r -> %r" % (start, back))
+    return {"checks": checks, "violations": viol}
+
+
 ORACLES = {"c01": c01, "c02": c02}
-MODEL_ORACLES = {"c02_traj": c02_traj}
+MODEL_ORACLES = {"c02_traj": c02_traj, "c13": c13, "c12": c12, "c12_dates": c12_dates}
 
 
 def run_oracle(m, o):
